@@ -15,3 +15,7 @@ def main(tier, seed):
 
 RULE_EXTRA = 'constraints installed from the start and mid-run (always generated compatible with the box in force).'
 TRUSTED_EXTRA = ['Powell: monitor only']
+
+
+def replay(path):
+    return solvercheck.replay(PID, path)
